@@ -191,5 +191,20 @@ CHECKS["C11"] = dict(
           dict(name="extendable", test="^TestExtendableUnusable$", kind="plain", quick=dict(n=1, procs=1, timeout=300), thorough=dict(n=1, procs=1, timeout=300))],
 )
 
+CHECKS["C12"] = dict(
+    level="exploration",
+    technique="metamorphic property testing (rapid): generated modifications of issued key strings; oracle: the set of operations the modified string is good for "
+              "(Service.Authorize over a probe set + key minting) is contained in what the original was good for",
+    level_text="Issued keys over (license version 1-3, permission mask, target shape, expiry none/future/past, salt) x modifications: 1-3 bit flips of the 24 raw "
+               "bytes (all 192 single flips enumerated for 4 keys per version), XOR masks on 1-4 bytes, base64 character substitutions, bytes outside the alphabet, "
+               "3-byte and 8-byte block swaps/duplications, truncation/extension, 8-byte block splices from a second issued key. granted(k') must be a subset of "
+               "granted(k) (of the union for splices) on 12 channels x 6 permissions + minting.",
+    level_note="Trusted: keys built field by field, the probe set. A 2^-32 forgery cannot be found by sampling; this check finds structural malleability only. "
+               "Listed findings: v2/v3 ciphers are unauthenticated stream ciphers (bit flips beyond the salt bytes change permissions/target/expiry at will).",
+    rule="rapid-generated (key, modification) pairs + enumerated single-bit flips; non-trivial = the modified string is still 32 valid characters; distinct = distinct case value.",
+    legs=[dict(name="tamper", test="^TestTamper$", quick=dict(n=6000, procs=3, timeout=300), thorough=dict(n=600000, procs=12, timeout=2400)),
+          dict(name="bitflips", test="^TestSingleBitFlips$", kind="plain", quick=dict(n=1, procs=1, timeout=300), thorough=dict(n=1, procs=1, timeout=300))],
+)
+
 for _k in CHECKS:
     NOT_APPLICABLE.pop(_k, None)
